@@ -483,7 +483,9 @@ func bodyRefs(h []Action, p string) bool {
 func drvCgo(r *rand.Rand, n int) [][]Action {
 	out := [][]Action{}
 	pres := [][]string{{}, {"#include <stdio.h>"}, {"#include <a.h>", "int f();\nint g();"}, {"// #cgo LDFLAGS: -lm"}, {"/*\n#include <b.h>\n*/"},
-		{"#include <a.h>", "#include <b.h>", "static int x = 1;"}}
+		{"#include <a.h>", "#include <b.h>", "static int x = 1;"},
+		// the same line more than once: every occurrence is part of the preamble
+		{"#ifdef A", "#include <a.h>", "#endif", "#ifdef B", "#include <b.h>", "#endif"}, {"#include <a.h>", "#include <a.h>"}, {"int x;", "", "int x;"}}
 	others := []string{"x/d", "fmt", "y/d", "x/c", "unsafe"}
 	for i := 0; i < n; i++ {
 		st := &symtab{}
@@ -543,8 +545,15 @@ func drvFileComments(r *rand.Rand, n int) [][]Action {
 	for i := 0; i < n/4+1; i++ {
 		st := &symtab{}
 		a := newAct("", []string{"", "pkg"}[r.Intn(2)])
+		if r.Intn(4) == 0 {
+			// a build constraint (which belongs above everything else) followed by ordinary headers
+			a.Headers = append(a.Headers, []string{"//go:build linux", "//go:build linux && amd64", "// +build linux", "//go:generate stringer"}[r.Intn(4)])
+		}
 		for k := 0; k < r.Intn(4); k++ {
 			a.Headers = append(a.Headers, texts[r.Intn(len(texts))])
+		}
+		if r.Intn(6) == 0 {
+			a.Headers = append(a.Headers, a.Headers...) // repeated header texts
 		}
 		for k := 0; k < r.Intn(4); k++ {
 			a.Comments = append(a.Comments, texts[r.Intn(len(texts))])
